@@ -7,6 +7,8 @@ CONSTANT EpochIds <- TEpochs
 CONSTANT MaxSteps = 1000000
 CONSTANT Ops <- TOps
 CONSTANT SessChecksDisabled <- TChecksDisabled
+CONSTANT RefreshUpserts = TRUE
+CONSTANT InFlightOps = {}
 SPECIFICATION CSpec
 CONSTRAINT Progress
 POSTCONDITION Accept
